@@ -88,10 +88,11 @@ Fixpoint depth (v : Value) : nat :=
   | _ => 1%nat
   end.
 
-Fixpoint keys_nodup (l : list keyv) : bool :=
-  match l with [] => true | k :: r => negb (existsb (key_eqb k) r) && keys_nodup r end.
-Fixpoint ids_nodup (l : list N) : bool :=
-  match l with [] => true | k :: r => negb (existsb (N.eqb k) r) && ids_nodup r end.
+(* generic association-list helpers (HashMap/HashSet as lists) *)
+Fixpoint nodupb {K} (eqb : K -> K -> bool) (l : list K) : bool :=
+  match l with [] => true | k :: r => negb (existsb (eqb k) r) && nodupb eqb r end.
+Definition keys_nodup := nodupb key_eqb.
+Definition ids_nodup := nodupb N.eqb.
 
 (* well-formedness = "is the image of a Rust Value": ints in range, payload sizes, valid UTF-8
    (when [utf8]), container lengths below 2^32, unique keys *)
@@ -113,9 +114,10 @@ Fixpoint wf (utf8 : bool) (v : Value) : bool :=
   end.
 
 (* HashMap::insert / HashSet::insert on association lists: last wins, position at the end *)
-Definition map_insert (k : keyv) (v : Value) (l : list (keyv * Value)) :=
-  filter (fun p => negb (key_eqb k (fst p))) l ++ [(k, v)].
-Definition set_insert (k : keyv) (l : list keyv) :=
-  filter (fun x => negb (key_eqb k x)) l ++ [k].
-Definition struct_insert (k : N) (v : Value) (l : list (N * Value)) :=
-  filter (fun p => negb (N.eqb k (fst p))) l ++ [(k, v)].
+Definition assoc_insert {K V} (eqb : K -> K -> bool) (k : K) (v : V) (l : list (K * V)) :=
+  filter (fun p => negb (eqb k (fst p))) l ++ [(k, v)].
+Definition list_insert {K} (eqb : K -> K -> bool) (k : K) (l : list K) :=
+  filter (fun x => negb (eqb k x)) l ++ [k].
+Definition map_insert := @assoc_insert keyv Value key_eqb.
+Definition set_insert := @list_insert keyv key_eqb.
+Definition struct_insert := @assoc_insert N Value N.eqb.
